@@ -144,6 +144,8 @@ type tr struct {
 	mutates map[*types.Func]bool
 	usedFields map[*types.Var]bool
 	closures []*closure
+	maps     map[*types.Var]string // package-level map variables that are read: their Lean rendering
+	mapOrder []*types.Var
 	// closure being translated: captured variables live in `env`
 	env      map[types.Object]bool
 	envFuncs map[types.Object]*types.Signature
@@ -182,7 +184,7 @@ func main() {
 	fset := token.NewFileSet()
 	l := &loader{root: os.Args[1], mod: sp.Module, fset: fset, cache: map[string]*pkgInfo{}, std: importer.ForCompiler(fset, "source", nil)}
 	t := &tr{l: l, sp: sp, funcs: map[*types.Func]*ast.FuncDecl{}, fpkg: map[*types.Func]*pkgInfo{}, state: map[*types.Func]int{},
-		sseen: map[*types.Named]bool{}, monadic: map[*types.Func]bool{}, mutates: map[*types.Func]bool{}}
+		sseen: map[*types.Named]bool{}, monadic: map[*types.Func]bool{}, mutates: map[*types.Func]bool{}, maps: map[*types.Var]string{}}
 	defer func() {
 		if r := recover(); r != nil {
 			if u, ok := r.(unsupported); ok {
@@ -302,6 +304,9 @@ func main() {
 		emit(t.structs[i])
 	}
 	fmt.Print(sout.String())
+	for _, v := range t.mapOrder {
+		fmt.Print(t.maps[v])
+	}
 	fmt.Print(body.String())
 	fmt.Print(cbody.String())
 	fmt.Printf("end %s\n", sp.Namespace)
@@ -458,6 +463,90 @@ func (t *tr) closureDecl(c *closure) string {
 		sb.WriteString("  return env\n")
 	}
 	return sb.String()
+}
+
+// mapVar: a package-level `var m = map[K]V{k: v, ...}` with constant integer keys and values, never assigned to in the
+// translated functions, becomes `def m (k) : Option V` (an if-chain in source order; a duplicate key is a compile error in Go)
+func (t *tr) mapVar(n ast.Node, v *types.Var) string {
+	if _, ok := t.maps[v]; ok {
+		return pkgShort(v.Pkg()) + "." + name(v.Name())
+	}
+	mt, ok := v.Type().Underlying().(*types.Map)
+	if !ok {
+		t.fail(n, "%s is not a map", v.Name())
+	}
+	var spec *ast.ValueSpec
+	var pi *pkgInfo
+	for _, p := range t.l.cache {
+		if p.pkg != v.Pkg() {
+			continue
+		}
+		for _, f := range p.files {
+			for _, d := range f.Decls {
+				if gd, ok := d.(*ast.GenDecl); ok && gd.Tok == token.VAR {
+					for _, sp := range gd.Specs {
+						vs := sp.(*ast.ValueSpec)
+						for i, id := range vs.Names {
+							if p.info.Defs[id] == types.Object(v) && i < len(vs.Values) {
+								spec, pi = vs, p
+							}
+						}
+					}
+				}
+			}
+		}
+	}
+	if spec == nil {
+		t.fail(n, "map %s has no initialiser", v.Name())
+	}
+	lit, ok := spec.Values[0].(*ast.CompositeLit)
+	if !ok {
+		t.fail(n, "map %s is not initialised by a literal", v.Name())
+	}
+	kt, vt := t.leanType(n, mt.Key()), t.leanType(n, mt.Elem())
+	full := pkgShort(v.Pkg()) + "." + name(v.Name())
+	var sb strings.Builder
+	pos := t.l.fset.Position(spec.Pos())
+	fmt.Fprintf(&sb, "/-- the map `%s` (%s:%d), read-only -/\ndef %s (k : %s) : Option %s :=\n", v.Name(), filepath.Base(pos.Filename), pos.Line, full, kt, vt)
+	save := t.p
+	t.p = pi
+	for _, el := range lit.Elts {
+		kv, ok := el.(*ast.KeyValueExpr)
+		if !ok {
+			t.fail(n, "map literal element")
+		}
+		ktv, vtv := pi.info.Types[kv.Key], pi.info.Types[kv.Value]
+		if ktv.Value == nil || vtv.Value == nil {
+			t.fail(kv, "map %s: key and value must be constants", v.Name())
+		}
+		fmt.Fprintf(&sb, "  if k = %s then some %s else\n", t.expr(kv.Key), t.expr(kv.Value))
+	}
+	t.p = save
+	sb.WriteString("  none\n\n")
+	t.maps[v] = sb.String()
+	t.mapOrder = append(t.mapOrder, v)
+	return full
+}
+
+// pkgMap: e is an identifier (or pkg.Ident) naming a package-level map variable
+func (t *tr) pkgMap(e ast.Expr) *types.Var {
+	var id *ast.Ident
+	switch x := e.(type) {
+	case *ast.Ident:
+		id = x
+	case *ast.SelectorExpr:
+		id = x.Sel
+	default:
+		return nil
+	}
+	v, ok := t.p.info.Uses[id].(*types.Var)
+	if !ok || v.Pkg() == nil || v.Parent() != v.Pkg().Scope() {
+		return nil
+	}
+	if _, isMap := v.Type().Underlying().(*types.Map); !isMap {
+		return nil
+	}
+	return v
 }
 
 func (t *tr) index(p *pkgInfo) {
@@ -676,7 +765,14 @@ func (t *tr) needsMonad(f *types.Func) bool {
 	need := false
 	ast.Inspect(fd.Body, func(n ast.Node) bool {
 		switch x := n.(type) {
-		case *ast.IndexExpr, *ast.SliceExpr:
+		case *ast.IndexExpr:
+			if tvx, ok := p.info.Types[x.X]; ok {
+				if _, isMap := tvx.Type.Underlying().(*types.Map); isMap {
+					return true // a read of a constant map cannot panic
+				}
+			}
+			need = true
+		case *ast.SliceExpr:
 			need = true
 		case *ast.BinaryExpr:
 			if x.Op == token.QUO || x.Op == token.REM {
@@ -961,7 +1057,7 @@ func (t *tr) funcDecl(f *types.Func) string {
 			rn = "self"
 		}
 		t.recvName = rn
-		params = append(params, fmt.Sprintf("(%s : %s)", rn, t.structName(recvNamed(sig.Recv().Type()))))
+		params = append(params, fmt.Sprintf("(%s : %s)", rn, t.leanType(fd, sig.Recv().Type())))
 	}
 	var muts []string
 	for i := 0; i < sig.Params().Len(); i++ {
@@ -1244,6 +1340,17 @@ func (t *tr) stmt(sb *strings.Builder, s ast.Stmt, ind string) bool {
 		if len(x.Rhs) == 1 {
 			if c, ok := x.Rhs[0].(*ast.CallExpr); ok && t.callStmt(sb, c, x.Lhs, define, ind) {
 				return true
+			}
+			// v, ok := m[k] on a package-level constant map
+			if ix, ok := x.Rhs[0].(*ast.IndexExpr); ok && len(x.Lhs) == 2 {
+				if mv := t.pkgMap(ix.X); mv != nil {
+					mt := mv.Type().Underlying().(*types.Map)
+					tmp := t.fresh("look")
+					fmt.Fprintf(sb, "%slet %s := %s %s\n", ind, tmp, t.mapVar(s, mv), t.atom(ix.Index))
+					t.assignTo(sb, x.Lhs[0], fmt.Sprintf("(%s.getD %s)", tmp, t.zero(s, mt.Elem())), define, ind, s)
+					t.assignTo(sb, x.Lhs[1], tmp+".isSome", define, ind, s)
+					return true
+				}
 			}
 		}
 		t.fail(s, "assignment form")
@@ -1891,6 +1998,10 @@ func (t *tr) expr(e ast.Expr) string {
 	case *ast.CallExpr:
 		return t.callExpr(x, tv)
 	case *ast.IndexExpr:
+		if mv := t.pkgMap(x.X); mv != nil {
+			mt := mv.Type().Underlying().(*types.Map)
+			return fmt.Sprintf("((%s %s).getD %s)", t.mapVar(e, mv), t.atom(x.Index), t.zero(e, mt.Elem()))
+		}
 		switch t.p.info.Types[x.X].Type.Underlying().(type) {
 		case *types.Slice, *types.Array:
 		default:
